@@ -14,7 +14,7 @@ def dotted(root: str, rel: str) -> str:
 
 
 @st.composite
-def project_trees(draw, root="proj", max_dirs=6, max_depth=4, names=NAMES, with_noise=True, min_files=2):
+def project_trees(draw, root="proj", max_dirs=6, max_depth=4, names=NAMES, with_noise=True, min_files=2, pycache=False):
     """Returns {root, dirs:[rel], pyfiles:[rel], otherfiles:[rel]} ; no x.py next to a directory x/."""
     dirs = [""]
     for _ in range(draw(st.integers(0, max_dirs))):
@@ -36,6 +36,10 @@ def project_trees(draw, root="proj", max_dirs=6, max_depth=4, names=NAMES, with_
                 pyfiles.append(pre + n + ".py")
         if with_noise and draw(st.integers(0, 4)) == 0:
             other.append(pre + draw(st.sampled_from(["README.md", "data.txt", "a.pyc", "b.pyi", "notes"])))
+        if pycache and draw(st.integers(0, 3)) == 0:
+            # what the interpreter leaves behind; excluded by the default exclusions ("*__pycache__*"), so neither the
+            # directory nor anything in it is a module of a scan with default options
+            other.append(pre + "__pycache__/" + draw(st.sampled_from(["m.cpython-312.pyc", "stale.py"])))
     real = [f for f in pyfiles if not f.endswith("__init__.py")]
     while len(real) < min_files:
         cand = f"f{len(real)}.py"
